@@ -32,13 +32,15 @@ fn parse_content_line(
     Ok(nodes)
 }
 
-fn parse_global_assignment(input: &str) -> Result<GlobalVariable, CompilerError> {
+fn parse_global_assignment(input: &str, line: usize) -> Result<GlobalVariable, CompilerError> {
     let (name, expression) = split_assignment(input, "=")?;
     let initial_value = parse_expression(&expression)?;
     crate::consts::check_initial_value(&name, &initial_value)?;
     Ok(GlobalVariable {
         name,
         initial_value,
+        line,
+        file: None,
     })
 }
 
